@@ -29,6 +29,7 @@ type Engine struct {
 	Verbose   bool
 	Tier      string
 	Seed      int
+	funcIdx   map[string]int
 }
 
 // overlayInstances is a synthetic file forcing generic instantiations (DESIGN §3.1).
@@ -257,6 +258,22 @@ func FuncDisplayName(fn *ssa.Function) string {
 
 func isIdentByte(c byte) bool {
 	return c == '_' || c >= 'a' && c <= 'z' || c >= 'A' && c <= 'Z' || c >= '0' && c <= '9'
+}
+
+// FuncIndex is a stable (per run) unique number for a function: its rank among all functions.
+func (e *Engine) FuncIndex(f *ssa.Function) int {
+	if e.funcIdx == nil {
+		var keys []string
+		for k := range e.Funcs {
+			keys = append(keys, k)
+		}
+		sort.Strings(keys)
+		e.funcIdx = map[string]int{}
+		for i, k := range keys {
+			e.funcIdx[k] = i
+		}
+	}
+	return e.funcIdx[f.String()]
 }
 
 // FnPkg is the package a function belongs to (instantiations: the origin's package).
